@@ -220,6 +220,7 @@ def run(prog, rep, tier):
 
     r02_5(prog, rep)
     r02_6(prog, rep)
+    r02_7(prog, rep, body)
 
 
 EXACT_READS = {'read_exact', 'read_u8', 'read_u16', 'read_u32', 'read_u64', 'read_u128', 'read_i8', 'read_i16', 'read_i32', 'read_i64',
@@ -296,6 +297,47 @@ def r02_5(prog, rep):
                    'a structure parser obtains a field with %s and never tests how many bytes arrived: a field cut by truncation is accepted as a shorter one '
                    '(repair would output a name / value that the original archive does not contain)' % (t.cmethod or cn), body.loc(b.idx))
     rep.floor('R02.5', n, 12, 'source reads in the block / header / footer parsers')
+
+
+def r02_7(prog, rep, body):
+    """repair always ends by finalizing its output: the only errors convert_to_archive returns (leaving the output unfinished) are errors of the output
+    writer itself; whatever goes wrong on the source side becomes a status and the loop is left towards the clean-up and finalize"""
+    n = 0
+    cnt = collections.Counter()
+    for b in body.blocks:
+        if b.cleanup:
+            continue
+        origin_calls = None
+        where = None
+        t = b.term
+        def producers(local):
+            got = []
+
+            def src(k, ob, bb):
+                if k == 'call' and ob.cmethod not in ('branch', 'from_residual', 'into', 'from', 'map_err'):
+                    got.append(ob)
+                    return True
+                return False
+            return got if must_derive(body, local, src) else []
+        if t.kind == 'call' and t.cmethod == 'from_residual' and t.dest == (0, ()):
+            origin_calls = producers(t.args[0].place[0]) if t.args and t.args[0].place is not None else []
+            where = body.loc(b.idx)
+        for i, st in enumerate(b.stmts):
+            if st.kind == 'assign' and st.place == (0, ()) and st.rv.r == 'aggregate' and st.rv.j.get('variant') == 'Err':
+                origin_calls = producers(st.rv.ops[0].place[0]) if st.rv.ops and st.rv.ops[0].place is not None else []
+                where = body.loc(b.idx, i)
+        if origin_calls is None:
+            continue
+        n += 1
+        names = sorted({cnorm(ct).rsplit('::', 2)[-2] + '::' + (ct.cmethod or '?') if '::' in cnorm(ct) else (ct.cmethod or '?') for ct in origin_calls})
+        from_output = bool(origin_calls) and all(cnorm(ct).startswith('ArchiveWriter::') for ct in origin_calls)
+        base = 'R02.7|%s|error-return|%s' % (body.nkey, '+'.join(names) or 'literal')
+        key = '%s#%d' % (base, cnt[base])
+        cnt[base] += 1
+        rep.ob('R02.7', from_output, key, 'error of the output writer (%s) is returned' % ', '.join(names) if from_output else
+               'convert_to_archive returns an error that does not come from the output writer (%s) without finalizing the output: the repaired archive is left '
+               'unfinished and does not open' % (', '.join(names) or 'a literal error'), where)
+    rep.floor('R02.7', n, 3, 'error returns of convert_to_archive')
 
 
 def r02_6(prog, rep):
